@@ -110,6 +110,20 @@ class LazyTable(torch.nn.Module):
 		return x * self._table        # autograd has to save the cached tensor
 
 
+class InplaceClip(torch.nn.Module):
+	"""h + clip(h), the clip done in place when `inplace` is set (as in
+	Hardtanh(inplace=True)); flipping the flag changes the function."""
+
+	def __init__(self):
+		super().__init__()
+		self.inplace = True
+
+	def forward(self, x):
+		h = x * 1.0
+		c = torch.nn.functional.hardtanh(h, -0.5, 0.5, inplace=self.inplace)
+		return h + c
+
+
 class CustomAct(torch.nn.Module):
 	"""A user-defined activation that needs `additional_nonlinear_ops`."""
 
@@ -175,6 +189,8 @@ class GenModel(torch.nn.Module):
 				m = ScaleBuf()
 			elif t == "lazytable":
 				m = LazyTable()
+			elif t == "inplaceclip":
+				m = InplaceClip()
 			else:
 				raise ValueError(t)
 			layers.append(m)
@@ -195,6 +211,10 @@ class GenModel(torch.nn.Module):
 		self.head = torch.nn.Sequential(*head)
 		self.n_args = spec.get("n_args", 0)
 		self.multi = spec.get("multi_output", False)
+		if spec.get("named_output"):
+			# layers that happen to be called `input` / `output`
+			self.output = torch.nn.Linear(spec["n_targets"], spec["n_targets"])
+			self.input = torch.nn.Identity()
 		if spec.get("alias_act"):
 			# the same activation object reachable through a second parent
 			for m in list(self.trunk) + list(self.head):
@@ -204,11 +224,15 @@ class GenModel(torch.nn.Module):
 					break
 
 	def forward(self, X, *args):
+		if "input" in self._modules:
+			X = self.input(X)
 		h = self.trunk(X).reshape(X.shape[0], -1)
 		for a in args:
 			# extra inputs modulate the features (so attributions depend on them)
 			h = h * (1.0 + 0.5 * torch.tanh(a.reshape(a.shape[0], -1)[:, :1].to(h.dtype)))
 		y = self.head(h)
+		if self.spec.get("named_output"):
+			y = self.output(y)
 		for a in args:
 			y = y + a.reshape(a.shape[0], -1)[:, :1].to(y.dtype)
 		if self.multi:
@@ -358,6 +382,8 @@ def gen_spec(r, L=None, need_nonlinear=True, allow_custom=True, allow_args=True,
 		trunk.insert(r.randint(0, len(trunk)), {"t": "scalebuf"})
 	if r.chance(0.15):
 		trunk.insert(r.randint(0, len(trunk)), {"t": "lazytable"})
+	if r.chance(0.12):
+		trunk.insert(r.randint(0, len(trunk)), {"t": "inplaceclip"})
 	head.append({"t": "linear", "out": n_targets})
 	return {"L": L, "trunk": trunk, "head": head, "n_targets": n_targets,
 		"n_args": (r.choice([1, 1, 2]) if (allow_args and r.chance(0.3)) else 0),
@@ -368,6 +394,7 @@ def gen_spec(r, L=None, need_nonlinear=True, allow_custom=True, allow_args=True,
 		"train_mode": r.chance(0.3), "alias_act": r.chance(0.15),
 		"mixed_mode": r.chance(0.15), "user_hooks": r.chance(0.15),
 		"stale_grads": r.chance(0.25), "legacy_bwd_history": r.chance(0.08),
+		"named_output": r.chance(0.12),
 		"tiny_weights": r.chance(0.08)}
 
 
